@@ -413,6 +413,40 @@ pub mod fastq {
             || (!group_complete(f, p) && !all_blank(f.subrange(p, f.len() as int), 0) && eerr(e, f, p, line)))
     }
 
+    // ---- C03 / C17: the contracts leave no freedom ---------------------------------------------------------------------
+    /// two errors agree in variant and in every field (ids compared as text)
+    spec fn same_pos(a: ErrorPosition, b: ErrorPosition) -> bool {
+        a.line == b.line && match (a.id, b.id) { (None, None) => true, (Some(x), Some(y)) => x@ == y@, _ => false }
+    }
+    spec fn same_error(a: Error, b: Error) -> bool {
+        match (a, b) {
+            (Error::UnequalLengths { seq: s1, qual: q1, pos: p1 }, Error::UnequalLengths { seq: s2, qual: q2, pos: p2 }) => s1 == s2 && q1 == q2 && same_pos(p1, p2),
+            (Error::InvalidStart { found: f1, pos: p1 }, Error::InvalidStart { found: f2, pos: p2 }) => f1 == f2 && same_pos(p1, p2),
+            (Error::InvalidSep { found: f1, pos: p1 }, Error::InvalidSep { found: f2, pos: p2 }) => f1 == f2 && same_pos(p1, p2),
+            (Error::UnexpectedEnd { pos: p1 }, Error::UnexpectedEnd { pos: p2 }) => same_pos(p1, p2),
+            _ => false,
+        }
+    }
+    /// the format error of the group at p is a function of the file and the cursor: whatever the reader's capacity, policy or
+    /// read chunking was, two errors that both meet the contract are the same error
+    proof fn lemma_fmt_err_unique(e1: Error, e2: Error, f: Seq<u8>, p: int, line: int)
+        requires fmt_err(e1, f, p, line), fmt_err(e2, f, p, line)
+        ensures
+            [C03,C17|lemma.fastq.fmt_err_is_a_function_of_file_and_cursor] same_error(e1, e2),
+    {
+        reveal(verr_body); reveal(eerr_body);
+    }
+    /// end of input, a record and a format error exclude each other (for records whose two data lines end alike)
+    proof fn lemma_outcomes_exclusive(e: Error, f: Seq<u8>, p: int, line: int)
+        requires 0 <= p, group_complete(f, p) ==> same_term(f, p)
+        ensures
+            [C03|lemma.fastq.outcomes_exclusive] !(end_ok(f, p) && group_complete(f, p) && vok(f, p))
+                && !(end_ok(f, p) && fmt_err(e, f, p, line))
+                && !(group_complete(f, p) && vok(f, p) && fmt_err(e, f, p, line)),
+    {
+        reveal(verr_body); reveal(eerr_body); reveal(may_accept); reveal(may_reject);
+    }
+
     /// the three fields of the record that bp describes in b
     spec fn recv(bp: BufferPosition, b: Seq<u8>) -> (Seq<u8>, Seq<u8>, Seq<u8>) {
         (g_head(b, bp.pos.0 as int), g_seq(b, bp.pos.0 as int), g_qual(b, bp.pos.0 as int))
